@@ -422,7 +422,7 @@ func main() {
 	run := vk.Start("C19", "exploration")
 	run.Rule("forced schedules: every placement of 1..3 producers in {before the consumer's check, inside the check/wait window (consumer parked at hook), after the consumer waits} " +
 		"x second consumer start x close/reset placement, each executed on the real queue; distinct = schedule id. " +
-		"lonely packet: ping-pong on the real sender loop, a packet added (after a random sub-microsecond spin) while the sender finishes the previous Send, nothing added afterwards; " +
+		"Socket.IO send buffer: 1/2/4/8 emitters at full speed from before Connect() until a moment after the connect handler, then silence — every event handed to Emit must reach the wire of the raw server without later traffic; lonely packet: ping-pong on the real sender loop, a packet added (after a random sub-microsecond spin) while the sender finishes the previous Send, nothing added afterwards; " +
 		"end-to-end: packets emitted at random phases of a real long-polling cycle with the window widened by a sleep hook; distinct = phase bucket")
 	run.Assume("the hook sits between the emptiness check and the wait in the real files (build tag verif)",
 		"a consumer that has not returned 250 ms after logical quiescence with a non-empty queue is stranded (its own timeout is 1 h)")
@@ -430,6 +430,7 @@ func main() {
 	if run.SubMode == "race" {
 		// race sub-pass: unforced stress only
 		stress(run)
+		sendBufferRounds(run)
 		run.Finish()
 	}
 
@@ -471,6 +472,7 @@ func main() {
 	stress(run)
 	lonely(run)
 	endToEnd(run)
+	sendBufferRounds(run)
 
 	if bin := raceBin(); bin != "" && run.Thorough() {
 		if s, err := vk.RunSub(bin, "race", run, 20*time.Minute); err != nil {
